@@ -319,6 +319,52 @@ def check(P: Project, R: Report) -> None:
     mp = [p for p in ce.positional_params() if p != "self"]
     R.need(len(mp) == 1, "cleanup_expired parameters changed")
     max_age = mp[0]
+
+    def limit_names():
+        """the caller's limit under every name it is given: the parameter, and a local whose every definition is the
+        parameter itself or — on the arm where the caller gave none (`max_age is None`) — a default"""
+        names = {max_age: ""}
+        parents = {}
+        for x in ast.walk(ce.node):
+            for c_ in ast.iter_child_nodes(x):
+                parents[id(c_)] = x
+        defs = {}
+        for x in walk_local(ce.node):
+            if isinstance(x, ast.Assign) and len(x.targets) == 1 and isinstance(x.targets[0], ast.Name):
+                defs.setdefault(x.targets[0].id, []).append(x)
+        for nm, ds in defs.items():
+            ok, why = True, []
+            saw_param = False
+            for d in ds:
+                if isinstance(d.value, ast.Name) and d.value.id == max_age:
+                    saw_param = True
+                    continue
+                par = parents.get(id(d))
+                under_none = isinstance(par, ast.If) and ((d in par.body and ast.unparse(par.test) == f"{max_age} is None") or (d in par.orelse and ast.unparse(par.test) == f"{max_age} is not None"))
+                if not under_none:
+                    ok = False
+                    why.append(ast.unparse(d)[:60])
+            if ok and saw_param:
+                names[nm] = ""
+            elif saw_param or any(isinstance(x, ast.Name) and x.id == max_age for d in ds for x in ast.walk(d.value)):
+                names.setdefault("!" + nm, "; ".join(why) or ast.unparse(ds[0])[:60])
+        return names
+
+    LIM = limit_names()
+
+    def accepted_for(nw_list, v):
+        acc = set()
+        for lim in [n_ for n_ in LIM if not n_.startswith("!")]:
+            for nw in nw_list:
+                acc |= {f"{nw} - {v}.last_activity > {lim}", f"{lim} < {nw} - {v}.last_activity"}
+        return acc
+
+    def limit_note(cond: str) -> str:
+        for n_, how in LIM.items():
+            if n_.startswith("!") and n_[1:] in cond:
+                return f" — `{n_[1:]}` is not the caller's limit on every path (`{how}`): a limit the caller did pass (0 included) is replaced by another value"
+        return ""
+
     an, out = effects(ce)
     sel_ok = False
     sel_detail = "no selection of expired keys found"
@@ -333,11 +379,9 @@ def check(P: Project, R: Report) -> None:
                     conds = [norm_lit(c, True) for c in gen_.ifs]
                     # `now` must be the clock read once
                     now_names = [x.targets[0].id for x in walk_local(ce.node) if isinstance(x, ast.Assign) and isinstance(x.targets[0], ast.Name) and ast.unparse(x.value) == "time.time()"]
-                    accepted = set()
-                    for nw in now_names + ["time.time()"]:
-                        accepted |= {f"{nw} - {v}.last_activity > {max_age}", f"{max_age} < {nw} - {v}.last_activity"}
+                    accepted = accepted_for(now_names + ["time.time()"], v)
                     sel_ok = ast.unparse(lc.elt) == k and len(conds) == 1 and conds[0] in accepted and not gen_.is_async
-                    sel_detail = f"selects `{ast.unparse(lc.elt)}` for ({k}, {v}) in {S}.items() if {conds}"
+                    sel_detail = f"selects `{ast.unparse(lc.elt)}` for ({k}, {v}) in {S}.items() if {conds}" + (limit_note(conds[0]) if conds else "")
                     sel_var = s.targets[0].id
     if sel_var is None:
         # loop form: for k, v in store.items(): if cond: acc.append(k)
@@ -356,11 +400,9 @@ def check(P: Project, R: Report) -> None:
                     if isinstance(inner, ast.Expr) and isinstance(inner.value, ast.Call) and call_name(inner.value).endswith(".append") and ast.unparse(inner.value.args[0]) == k:
                         cond = norm_lit(s.body[0].test, True)
                         now_names = [x.targets[0].id for x in walk_local(ce.node) if isinstance(x, ast.Assign) and isinstance(x.targets[0], ast.Name) and ast.unparse(x.value) == "time.time()"]
-                        accepted = set()
-                        for nw in now_names + ["time.time()"]:
-                            accepted |= {f"{nw} - {v}.last_activity > {max_age}", f"{max_age} < {nw} - {v}.last_activity"}
+                        accepted = accepted_for(now_names + ["time.time()"], v)
                         sel_ok = cond in accepted
-                        sel_detail = f"loop selects {k} if {cond}"
+                        sel_detail = f"loop selects {k} if {cond}" + limit_note(cond)
                         sel_var = call_name(inner.value)[: -len(".append")]
     single_pass = None
     if sel_var is None:
@@ -394,9 +436,7 @@ def check(P: Project, R: Report) -> None:
 
                 cond = norm_lit(_S().visit(_c.deepcopy(test)), True)
                 now_names = [x.targets[0].id for x in walk_local(ce.node) if isinstance(x, ast.Assign) and isinstance(x.targets[0], ast.Name) and ast.unparse(x.value) == "time.time()"]
-                accepted = set()
-                for nw in now_names + ["time.time()"]:
-                    accepted |= {f"{nw} - {v}.last_activity > {max_age}", f"{max_age} < {nw} - {v}.last_activity"}
+                accepted = accepted_for(now_names + ["time.time()"], v)
                 dels = [b for b in ifs[0].body if isinstance(b, ast.Delete) and [ast.unparse(t) for t in b.targets] == [f"{S}[{k}]"]]
                 incs = [b for b in ifs[0].body if isinstance(b, ast.AugAssign) and isinstance(b.op, ast.Add) and isinstance(b.target, ast.Name) and ast.unparse(b.value) == "1"]
                 others = [b for b in ifs[0].body if b not in dels and b not in incs and not (isinstance(b, ast.Expr) and isinstance(b.value, ast.Call) and call_name(b.value).startswith(("logging.", "logger.")))]
